@@ -63,7 +63,7 @@ pub fn cases(ctx: &Ctx) -> Vec<WCase> {
         if rr.chance(0.3) {
             let k = s.kill.clone().unwrap();
             let mut l = s.link.clone();
-            l.stragglers.push(Straggler { from_ms: k.at_ms.saturating_sub(rr.range(50, 400)), to_ms: k.at_ms + s.timeout_ms, every: rr.range(1, 3), delay_ms: s.timeout_ms + rr.range(20, 400) });
+            l.stragglers.push(Straggler { from_ms: k.at_ms.saturating_sub(rr.range(50, 400)), to_ms: k.at_ms + s.timeout_ms, every: rr.range(1, 3), delay_ms: s.timeout_ms + rr.range(20, 400), hold: false });
             s.link_overrides.push((peer_addr(0), spec_addr(0), l));
         }
         s.settle_ms = 1500;
@@ -86,7 +86,7 @@ pub fn cases(ctx: &Ctx) -> Vec<WCase> {
         // statuses behind newer ones)
         if rr.chance(0.5) {
             let mut l = s.link.clone();
-            l.stragglers.push(Straggler { from_ms: k.at_ms.saturating_sub(rr.range(50, 400)), to_ms: k.at_ms + s.timeout_ms, every: rr.range(1, 3), delay_ms: s.timeout_ms + rr.range(20, 400) });
+            l.stragglers.push(Straggler { from_ms: k.at_ms.saturating_sub(rr.range(50, 400)), to_ms: k.at_ms + s.timeout_ms, every: rr.range(1, 3), delay_ms: s.timeout_ms + rr.range(20, 400), hold: false });
             s.link_overrides.push((peer_addr(0), spec_addr(0), l));
         }
         s.settle_ms = 2000;
